@@ -227,15 +227,23 @@ CHECKS['C16'] = dict(
     engine='explorer+tlc',
     technique='bounded-exhaustive hostile-option sweep over route instances; exhaustive single-fault mutation of MP4 seeds; TLA+ model ErrInject checked by TLC with all paths/edges replayed through HTTP',
     design_ref='DESIGN.md §7 C16',
-    text='(1) 140 route instances (every manifest/media/patch/mps/time/html/api route x existing, missing and ill-typed '
+    text='(1) ~190 route instances (every manifest/media/patch/mps/time/html/api route x existing, missing and ill-typed '
          'path parameters x streams with missing pieces: no media, no timing reference, un-indexed file, no encrypted '
-         'media) x every registered option name x 40 hostile values (deviation level 1), 16 option pairs at level 2, '
+         'media; boundary values 0, 99999999, 2^32, 10^22 of the numeric path parameters; segment-info pages around the '
+         'ends of the segment table) x every registered option name x 47 hostile values + the spelling variants of every '
+         'registered choice (deviation level 1), ~50 option pairs at level 2 (every sub-option with its enabling option), '
+         'base requests asserted to answer 200 (non-vacuity), '
          'header and JSON-body type confusion: status < 500, no unhandled exception, answer within 10 s. '
-         '(2) every truncation, header bit flip and size-field edit of 5 small MP4 seeds through Mp4Atom.load (eager, '
+         '(2) every truncation, header bit flip, size-field edit, one-bit type rename and box removal (ancestor sizes '
+         'repaired) of 5 small MP4 seeds through Mp4Atom.load (eager, '
          'lazy, encode, toJSON; 5 s budget; seeds must parse - non-vacuity) and through upload/index/info/serve/'
          'inspect. (3) models/ErrInject.tla (2 sessions x 2 media types, 6 code/failure-count configurations) '
          'checked by TLC; all paths <= 3 (5) replayed for $Number$, $Time$ and manifest variants and all edges for '
-         '$Number$: every response must be the prescribed one (or lie in the allowed set).',
+         '$Number$: every response must be the prescribed one (or lie in the allowed set); the manifest variant also '
+         'issues requests without update= (always a miss). (4) errors addressed by a time of day: every second of a 40 s '
+         'window x {number, time addressing} x {bbb, tears}: the synthetic error must be produced for exactly the listed '
+         'segment whose interval contains that time. (5) the management alphabet of C17 (49 operations), every ordered '
+         'pair, issued by the media user: the answer of the request itself must not be a 5xx.',
     note='Crash signature = exception type + innermost repository frame; requested synthetic errors are excluded '
          'from (1) and judged by (3); /media/inspect POST is an async view this sandbox cannot run (asgiref missing), '
          'its synchronous part is driven inside a request context.')
@@ -267,15 +275,17 @@ CHECKS['C17'] = dict(
     technique='explicit-state search over management histories with exact store snapshots (SQLite image + blob tree); '
               'invariants evaluated on the real rows after every transition',
     design_ref='DESIGN.md §7 C17',
-    text='46 concrete management operations issued by the media user through the real endpoints with fresh CSRF '
+    text='49 concrete management operations issued by the media user through the real endpoints with fresh CSRF '
          'tokens (create/edit/delete stream incl. duplicate directory and foreign / missing timing reference; stream '
          'defaults; upload clear/audio/cenc files, same name again, the name of another stream\'s file; index; edit '
          'and delete media incl. the timing reference and through the wrong stream; add/edit/delete keys incl. the '
-         'key in use; create/edit/delete multi-period streams incl. unknown stream, no periods, existing name). '
+         'key in use, the KID of an existing key in other spellings; create/edit/delete multi-period streams incl. unknown '
+         'stream, no periods, existing name). '
          'Quick: every history of length <= 2 and every extension by a 16-operation core alphabet to length 3; '
          'thorough: length <= 3 and core extension to 4; per first operation, states de-duplicated on the full row '
          'content + blob tree. After every transition: referential invariants on raw SQL rows and files on disk, '
-         'name uniqueness, timing reference resolvable by the service\'s own lookup, deletions compared with the '
+         'every Blob row describes the file on disk (size, sha1), name uniqueness (keys by canonical KID), timing reference '
+         'resolvable by the service\'s own lookup, deletions compared with the '
          'ownership closure computed from the pre-state; in every new state every listed stream (4 manifests, '
          'init + first media segment of up to 3 representations, byte-exact read-back of uploaded files) and '
          'multi-period stream (vod/live manifest, first init segments) must answer 200 or 4xx.',
